@@ -570,7 +570,7 @@ var c16ExtraLeaf = func() map[*gen.Leaf]bool {
 // Findings of these episodes on the pinned tree:
 //   - flag and pflag register a flag for a pointer-to-pointer field and panic in (*Set).Value when it is given
 //     (--retries=3 for Retries **int: reflect.Value.OverflowInt on ptr Value / Convert: int cannot be converted to **int):
-//     open, listed in known_findings.json under the key "panic:types:flag-sources+ptr-to-ptr-leaves:(*Set).Value";
+//     repaired by /repo commit bb64858 (was listed under the key "panic:types:flag-sources+ptr-to-ptr-leaves:(*Set).Value");
 //   - the env source panicked for a top-level pointer to a slice or map whose variable is set (TAGS=a,b for Tags *[]string):
 //     repaired by /repo commit d738c86.
 //
